@@ -184,6 +184,47 @@ def nth_stream(rng, pid, kinds=("iter", "iterref", "vec", "slice", "array", "ran
     return cases
 
 
+def pod_stream(rng, pid):
+    """consumed vectors / arrays of `Copy` elements without drop glue (`needs_drop::<T>() == false`): chunks consumed through
+    `next`, `nth`, and `next` followed by `nth` (the latter IMPL-ONLY), then more pulls and the remainder"""
+    cases = []
+    i = 0
+    for kind in ("vec", "array"):
+        for L in (3, 6, 8):
+            for n in (2, 3, 5):
+                for tok in ("all", "1", "nth:0", "nth:1", "nth:2", "count", "fold", "1+nth:0", "2+nth:0", "1+nth:1", "2+nth:1"):
+                    for style in (0, 1):
+                        c = make_source(rng, "%s-pod%d" % (pid, i), kind, L)
+                        c.pod = True
+                        if style == 0:
+                            c.threads = [["chunk %d %s" % (n, tok), "next", "chunk %d all" % n]]
+                        else:
+                            c.threads = [["bufnew %d" % n, "bufnext %s" % tok, "bufnext all"]]
+                        c.owner = rng.choice(["intoseq all", "drop"])
+                        if "+" in tok:
+                            c.tags = {"implonly", "nomodel"}
+                        cases.append(c)
+                        i += 1
+    return cases
+
+
+def spare_stream(rng, pid):
+    """consumed vectors with unused capacity (built by `with_capacity` + `push`): every progress point, every ending"""
+    cases = []
+    i = 0
+    for L in (1, 4, 7, 10):
+        for spare in (1, 6, 13):
+            for k in range(0, L + 2):
+                for owner in ("intoseq all", "intoseq 1", "drop"):
+                    c = make_source(rng, "%s-spare%d" % (pid, i), "vec", L)
+                    c.spare = spare
+                    c.threads = [["next"] * k] if k % 2 == 0 else [["chunk %d all" % k]]
+                    c.owner = owner
+                    cases.append(c)
+                    i += 1
+    return cases
+
+
 def zst_stream(rng, pid):
     """zero-sized element types: `ptr.add(i) == ptr`, slices of any length occupy no memory"""
     cases = []
@@ -429,10 +470,12 @@ def stream_for0(pid, tier, seed):
     defects = corpus(["defects.cases", "regress.cases"])
     big = tier != "quick"
     if pid in ("C01", "C02", "C04"):
-        return defects + pulls_stream(rng, tier, pid) + half_stream(rng, pid) + nth_stream(rng, pid) + liar_stream(rng, pid) + zst_stream(rng, pid)
+        return defects + pulls_stream(rng, tier, pid) + half_stream(rng, pid) + nth_stream(rng, pid) + liar_stream(rng, pid) + zst_stream(rng, pid) + pod_stream(rng, pid)
     if pid == "C03":
         cases = defects + pulls_stream(rng, tier, pid, prof=dict(loops=False, query=False, drain=0.2))
-        cases += half_stream(rng, pid) + nth_stream(rng, pid) + liar_stream(rng, pid) + zst_stream(rng, pid)
+        cases += half_stream(rng, pid) + nth_stream(rng, pid) + liar_stream(rng, pid) + zst_stream(rng, pid) + pod_stream(rng, pid)
+        # a chunk pull in flight while another thread skips: the chunk it had reserved is still delivered in full
+        cases += inflight_stream(rng, pid, tier)
         return cases
     if pid == "C05":
         cases = defects + pulls_stream(rng, tier, pid, prof=dict(nonfused=True), exh=False, n_random=800 if not big else 30000)
@@ -528,6 +571,7 @@ def stream_for0(pid, tier, seed):
                             c.owner = owner
                             cases.append(c)
         cases += droppanic_stream(rng, tier, pid) + zst_stream(rng, pid) + closure_panic_stream(rng, pid) + next_then_nth_stream(rng, pid, kinds=("vec", "array", "iter"))
+        cases += spare_stream(rng, pid)
         return cases
     if pid == "C09":
         cases = defects + pulls_stream(rng, tier, pid, n_random=1000 if not big else 40000, prof=dict(skip=True))
@@ -551,7 +595,8 @@ def stream_for0(pid, tier, seed):
         return cases
     if pid == "C10":
         return defects + pulls_stream(rng, tier, pid, prof=dict(skip=True, owners=["intoseq all", "intoseq 1", "intoseq 2", "intoseq 0"]), exh=False, n_random=2000 if not big else 80000) + liar_stream(rng, pid) + zst_stream(rng, pid) + \
-            [c for c in boundary_stream(rng, tier) if c.kind == "range" and c.owner != "drop"][::2] + next_then_nth_stream(rng, pid)
+            [c for c in boundary_stream(rng, tier) if c.kind == "range" and c.owner != "drop"][::2] + next_then_nth_stream(rng, pid) + \
+            spare_stream(rng, pid) + pod_stream(rng, pid)
     if pid == "C11":
         return defects + pulls_stream(rng, tier, pid, prof=dict(skip=True, query=True, drain=0.3), n_random=2000 if not big else 80000, exh=False) + \
             exhaustive("C11-x2", small_bases(rng, [[["next", "len"], ["chunk 2 all", "hasmore"]], [["hasmore", "next"], ["skip", "len"]]], ["slice", "vec", "range", "iter"]), 2, 8 if not big else 11) + \
@@ -606,7 +651,7 @@ def stream_for0(pid, tier, seed):
         return [c for c in defects if c.id[0] in "HR" or c.id.startswith("D10")] + boundary_stream(rng, tier) + huge_chunk_stream(rng, pid)
     if pid == "C17":
         return defects + pulls_stream(rng, tier, pid, prof=dict(skip=True), exh=False, n_random=2000 if not big else 80000) + \
-            [c for c in boundary_stream(rng, tier) if c.kind == "range"][::3] + huge_chunk_stream(rng, pid)
+            [c for c in boundary_stream(rng, tier) if c.kind == "range"][::3] + huge_chunk_stream(rng, pid) + spare_stream(rng, pid)
     if pid == "C18":
         cases = defects[:]
         for i in range(1500 if not big else 60000):
